@@ -144,8 +144,10 @@ fn run_script(script: &str, events: &str) -> std::io::Result<()> {
 }
 
 fn main() {
-    install_panic_hook();
     let args: Vec<String> = std::env::args().collect();
+    if args.get(1).map(|s| s.as_str()) != Some("supervise") {
+        install_panic_hook();
+    }
     match args.get(1).map(|s| s.as_str()) {
         Some("run") if args.len() == 4 => {
             if let Err(e) = run_script(&args[2], &args[3]) {
